@@ -229,6 +229,20 @@ class Flow:
             if cv is not None:
                 return cv | {a for a in A(e.value)
                              if not a.startswith(('const:', 'key:'))}
+        if isinstance(e, ast.Subscript) and isinstance(
+                e.value, ast.Name) and isinstance(
+                    e.slice, (ast.Attribute, ast.Constant)) and \
+                fn is not None:
+            # d[K] for a local bound once to a dict display that spells the
+            # key K (an enum member or a constant): that cell
+            ds = self.defs(fn.node).get(e.value.id) or []
+            if len(ds) == 1 and ds[0][0] == 'value' and isinstance(
+                    ds[0][1], ast.Dict) and e.value.id not in Q.params(
+                        fn.node):
+                kt = unparse(e.slice)
+                for k, v in zip(ds[0][1].keys, ds[0][1].values):
+                    if k is not None and unparse(k) == kt:
+                        return A(v)
         if isinstance(e, (ast.Attribute, ast.Subscript)):
             if isinstance(e, ast.Subscript) and isinstance(
                     e.slice, ast.Constant) and isinstance(
